@@ -20,9 +20,22 @@ func sampleOfPattern(r *rand.Rand, pat string) (string, bool) {
 }
 
 // args: shell ("unix"/"windows"), word, wrapKind, cfg x6
-func oracleC04(p *Pair, env *Env, a [][]byte) *Failure {
+func oracleC04(p *Pair, env *Env, a [][]byte) *Failure { return oracleC04Styled(p, env, "", a) }
+
+// the same membership question with the configuration file written in another spelling (args: style, then as above)
+func oracleC04Yaml(p *Pair, env *Env, a [][]byte) *Failure {
+	return oracleC04Styled(p, env, string(a[0]), a[1:])
+}
+
+func oracleC04Styled(p *Pair, env *Env, style string, a [][]byte) *Failure {
 	shell, word, wrap := string(a[0]), string(a[1]), string(a[2])
 	cfg := a[3:9]
+	fileCfg := cfg
+	switch style {
+	case "absent", "empty-file", "malformed":
+		// "a missing or unreadable file, where nothing is inserted"
+		cfg = [][]byte{{}, {}, {}, {}, {}, {}}
+	}
 	ev, suf, ns := string(cfg[0]), string(cfg[1]), string(cfg[2])
 	if shell == "windows" {
 		ev, suf, ns = string(cfg[3]), string(cfg[4]), string(cfg[5])
@@ -37,7 +50,12 @@ func oracleC04(p *Pair, env *Env, a [][]byte) *Failure {
 		prog = "##!> assemble\n##!> cmdline " + shell + "\n" + word + "\nzz\n##!<\n##!=>\n;\n##!<\n"
 	}
 	args := append(append([][]byte{}, cfg...), []byte(prog))
-	g := p.Impl(Op{"gen.run", args}, env.timeout)
+	g := Result{}
+	if style == "" {
+		g = p.Impl(Op{"gen.run", args}, env.timeout)
+	} else {
+		g = p.Impl(Op{"gen.runYaml", append(append([][]byte{[]byte(style)}, fileCfg...), []byte(prog))}, env.timeout)
+	}
 	if g.Status != "ok" {
 		return &Failure{What: "cmdline block with a listed command word does not compile", Detail: fmt.Sprintf("%q cfg %q: %s", prog, cfg, g.String())}
 	}
@@ -154,6 +172,11 @@ func genC04(r *rand.Rand, tier string, env *Env) []Case {
 		if shell == "windows" {
 			sh = "w"
 		}
+		if i%25 == 7 {
+			// outside the property's alphabet, inside the tie's: the code re-encodes every byte ≥ 0x80 as a code point
+			nw := pick(r, []string{"é", "\xff", "\u0085", "\u00a0", "ü", "\xc3"}) + w + pick(r, []string{"", "é", "\x80@", "\u2003~"})
+			cases = append(cases, Case{Kind: "cmd-word-nonascii", Ops: []Op{{"cmdline.regexpStr", [][]byte{[]byte(sh), []byte(pat[0]), []byte(pat[1]), []byte(pat[2]), []byte(nw)}}}})
+		}
 		args := append([][]byte{[]byte(shell), []byte(w), []byte(pick(r, []string{"alone", "mixed", "nested"}))}, cb...)
 		cases = append(cases, Case{Kind: "cmd-word",
 			Ops:     []Op{{"cmdline.regexpStr", [][]byte{[]byte(sh), []byte(pat[0]), []byte(pat[1]), []byte(pat[2]), []byte(w)}}},
@@ -182,16 +205,20 @@ func genC04(r *rand.Rand, tier string, env *Env) []Case {
 		for _, c := range cfg {
 			cb = append(cb, []byte(c))
 		}
-		style := []string{"omit-empty", "padded", "empty-file", "malformed", "absent", "omit-empty", "padded"}[i%7]
-		prog := "##!> cmdline " + pick(r, []string{"unix", "windows"}) + "\n" + genCmdWord(r) + "\n" + pick(r, []string{"ls@", "cat~", "a b", "x.y-z"}) + "\n##!<\n"
+		style := []string{"omit-empty", "padded", "empty-file", "malformed", "absent", "case-keys", "padded", "case-keys"}[i%8]
+		shell := pick(r, []string{"unix", "windows"})
+		w := genCmdWord(r)
+		prog := "##!> cmdline " + shell + "\n" + w + "\n" + pick(r, []string{"ls@", "cat~", "a b", "x.y-z"}) + "\n##!<\n"
 		args := append(append([][]byte{[]byte(style)}, cb...), []byte(prog))
-		cases = append(cases, Case{Kind: "yaml-style:" + style, Ops: []Op{{"gen.runYaml", args}}})
+		margs := append([][]byte{[]byte(style), []byte(shell), []byte(w), []byte(pick(r, []string{"alone", "mixed", "nested"}))}, cb...)
+		cases = append(cases, Case{Kind: "yaml-style:" + style, Ops: []Op{{"gen.runYaml", args}}, Oracles: []Op{{"c04.memberYaml", margs}}})
 	}
 	return cases
 }
 
 func init() {
 	oracles["c04.member"] = oracleC04
+	oracles["c04.memberYaml"] = oracleC04Yaml
 	// language equality with the plain reading; failures that fall under a finding recorded for C01 (engine
 	// defects unrelated to cmdline blocks) are C01's business and are not counted here
 	oracles["c04.language"] = func(p *Pair, env *Env, a [][]byte) *Failure {
